@@ -127,6 +127,12 @@ fn render(items: &[Item]) -> (Vec<RFrame>, Vec<(bool, Vec<u8>)>, Vec<Vec<u8>>, b
                     start = *c;
                     if fi + 1 < n {
                         for (after, kind, p) in &it.inter {
+                            if *after == fi && kind == "close" {
+                                // a Close in the middle of a fragmented message: the message is
+                                // never completed, the connection closes here
+                                frames.push(RFrame::masked(0x8, if p.len() >= 2 { vec![0x03, 0xe9] } else { vec![] }, key(it.key, ii * 16 + fi + 9)));
+                                return (frames, msgs, pings, true);
+                            }
                             if *after == fi {
                                 let pb: Vec<u8> = p.bytes().take(125).collect();
                                 if kind == "ping" {
@@ -150,7 +156,7 @@ fn handler_loop(mut ws: WebsocketStream, mut nonblocking: bool, echo: bool, drop
     let mut idle = 0u64;
     let mut idle_polls = 0u32;
     let mut pushed = 0usize;
-    let mut push = |ws: &mut WebsocketStream, pushed: &mut usize| -> bool {
+    let push = |ws: &mut WebsocketStream, pushed: &mut usize| -> bool {
         let k = *pushed;
         *pushed += 1;
         let ok = ws.send(Message::new_binary(push_payload(k, pushes[k]))).is_ok();
@@ -251,7 +257,7 @@ impl Prop for C11 {
         }
     }
     fn rule(&self) -> &'static str {
-        "One case = a client script of 1..12 frames over {text, binary, continuation, ping, pong, close} (payloads 0..70 KiB, messages fragmented 1..5 ways with control frames interleaved, arbitrary mask keys), a Sec-WebSocket-Key (printable string incl. empty and long, or absent), a delivery of the client byte stream (whole, byte-wise, cuts inside the 2-byte header / extended length / key / payload, with gaps), a handler mode (blocking recv, non-blocking recv + virtual sleep, or non-blocking for the first idle polls and blocking afterwards), echo on/off or 1..3 server-initiated messages of 10..70 000 bytes (sent after idle polls / before the first receive), optionally a slow-reading client (receive window 512..8192 bytes, reading delayed up to 1.5 s), and an ending (client Close, server returning early = drop, abrupt FIN, RST), under a seeded schedule and network knobs. Distinct = distinct (frame kinds, fragment counts, delivery class, handler mode, ending, what the server wrote); non-trivial = at least two frames and a cut inside a frame, or a control frame."
+        "One case = a client script of 1..12 frames over {text, binary, continuation, ping, pong, close} (payloads 0..70 KiB, messages fragmented 1..5 ways with ping/pong frames interleaved and sometimes a Close in the middle of a fragmented message, arbitrary mask keys), a Sec-WebSocket-Key (printable string incl. empty and long, or absent), a delivery of the client byte stream (whole, byte-wise, cuts inside the 2-byte header / extended length / key / payload, with gaps), a handler mode (blocking recv, non-blocking recv + virtual sleep, or non-blocking for the first idle polls and blocking afterwards), echo on/off or 1..3 server-initiated messages of 10..70 000 bytes (sent after idle polls / before the first receive), optionally a slow-reading client (receive window 512..8192 bytes, reading delayed up to 1.5 s), and an ending (client Close, server returning early = drop, abrupt FIN, RST), under a seeded schedule and network knobs. Distinct = distinct (frame kinds, fragment counts, delivery class, handler mode, ending, what the server wrote); non-trivial = at least two frames and a cut inside a frame, or a control frame."
     }
     fn assumptions(&self) -> Vec<String> {
         vec![
@@ -261,7 +267,7 @@ impl Prop for C11 {
         ]
     }
     fn expected_counters(&self) -> Vec<&'static str> {
-        vec!["c11.runs", "c11.no_key", "c11.nonblocking", "c11.pings", "c11.fragmented_messages", "c11.interleaved_control", "c11.close_ending", "c11.server_drop_ending", "c11.abrupt_ending", "c11.cut_inside_header", "c11.large_payload", "c11.echo", "c11.server_initiated_messages", "c11.nonblocking_then_blocking", "c11.slow_reader"]
+        vec!["c11.runs", "c11.no_key", "c11.nonblocking", "c11.pings", "c11.fragmented_messages", "c11.interleaved_control", "c11.close_inside_fragmented_message", "c11.close_ending", "c11.server_drop_ending", "c11.abrupt_ending", "c11.cut_inside_header", "c11.large_payload", "c11.echo", "c11.server_initiated_messages", "c11.nonblocking_then_blocking", "c11.slow_reader"]
     }
     fn real_vs_stub(&self) -> (Vec<&'static str>, Vec<&'static str>) {
         (vec!["humphrey_ws::{websocket_handler, handshake, WebsocketStream::{recv, recv_nonblocking, send, Drop}, Message::from_stream(_nonblocking), Frame}", "humphrey::App (upgrade dispatch), SHA-1/Base64 of the handshake"], vec!["TCP, threads, Instant (humsim)", "client is a harness reference RFC 6455 implementation"])
@@ -286,7 +292,11 @@ impl Prop for C11 {
             let payload = if kind == "text" { String::from_utf8_lossy(&payload).replace('\u{fffd}', "?").into_bytes() } else { payload };
             let nfr = if (kind == "text" || kind == "binary") && rng.chance(1, 2) { rng.range(1, 4) as usize } else { 0 };
             let frags: Vec<usize> = (0..nfr).map(|_| rng.usize_below(payload.len().max(1))).collect();
-            let inter = if nfr > 0 && rng.chance(1, 2) { vec![(rng.usize_below(nfr), if rng.chance(2, 3) { "ping" } else { "pong" }.to_string(), format!("i{}", rng.below(100)))] } else { vec![] };
+            let mut inter = if nfr > 0 && rng.chance(1, 2) { vec![(rng.usize_below(nfr), if rng.chance(2, 3) { "ping" } else { "pong" }.to_string(), format!("i{}", rng.below(100)))] } else { vec![] };
+            // (drawn from a separate stream so that older dimensions keep their values)
+            if nfr > 0 && Rng::new(humsim::rng::mix(&[run_seed(seed, "C11", idx), 0xC11_0003, items.len() as u64])).chance(1, 8) {
+                inter.push((nfr - 1, "close".to_string(), if rng.chance(1, 2) { "xx".to_string() } else { String::new() }));
+            }
             items.push(Item { kind: kind.into(), payload, frags, inter, key: rng.next_u64() as u32 });
         }
         let ending = ["close", "close", "fin", "rst", "wait"][rng.usize_below(5)].to_string();
@@ -459,6 +469,9 @@ impl Prop for C11 {
         }
         if scn.items.iter().any(|i| !i.inter.is_empty() && !i.frags.is_empty()) {
             rr.count("c11.interleaved_control", 1);
+            if scn.items.iter().any(|i| !i.frags.is_empty() && i.inter.iter().any(|x| x.1 == "close")) {
+                rr.count("c11.close_inside_fragmented_message", 1);
+            }
         }
         if scn.echo {
             rr.count("c11.echo", 1);
